@@ -270,7 +270,22 @@ class Attack:
         ser = self.cfg['serializer']
         frames = valid_frames(rng, ser)
         mode = rng.random()
-        if mode < 0.12:
+        if getattr(self, 'force_mode', None):
+            mode = self.force_mode.pop(0)
+        if 0.55 <= mode < 0.58:
+            # well-formed acknowledgements nobody asked for, on every
+            # namespace the offender is connected to (and one it is not)
+            mine = [ns for (T, ns) in r.issued if T == self.OT] or ['/']
+            sendf = []
+            for ns in mine + ['/nope']:
+                pid = rng.choice([0, 1, 1, 2, 5, 10 ** 6])
+                args = rng.choice([[], ['x'], [{'a': 1}, 2]])
+                if ser == 'msgpack':
+                    sendf.append(R.msgpack_encode(R.ACK, ns, pid, args))
+                else:
+                    sendf.append(R.encode(R.ACK, ns, pid, args)[0])
+            ctx.count('unsolicited_ack_frames', len(sendf))
+        elif mode < 0.12:
             sendf = frames            # perfectly valid
         elif mode < 0.2:
             sendf = [rng.choice(['', 'x', ' ', '\x00', '{"a":1}', '[1]',
@@ -566,7 +581,7 @@ class Attack:
                 return False
         return True
 
-    def bystander_traffic(self):
+    def bystander_traffic(self, force_cb=False):
         """Well-formed event with ack from a bystander, and a room broadcast;
         both must work exactly."""
         r, rng, ctx = self.r, self.rng, self.ctx
@@ -598,7 +613,7 @@ class Attack:
         self.tok += 1
         # (sometimes the application passes a callback along: whatever that
         # means for several recipients, the emit itself must go through)
-        cb = 'fn' if rng.random() < 0.4 else None
+        cb = 'fn' if rng.random() < 0.4 or force_cb else None
         if cb:
             # (registered once per recipient, the offender included when it
             # is in the room: its own acknowledgement may complete its copy)
@@ -654,6 +669,17 @@ class Attack:
         if not self.by:
             return
         n = rng.choice([30, 60, 120])
+        if rng.random() < 0.3:
+            # the offender opens with acknowledgements nobody asked for,
+            # before the application has ever emitted to it with a callback;
+            # then the application does (a room broadcast with a callback)
+            self.force_mode = [0.56]
+            self.offender_frame(traced)
+            for _ in range(2):
+                if not self.failed:
+                    self.bystander_traffic(force_cb=True)
+            if self.failed:
+                return
         for i in range(n):
             self.offender_frame(traced)
             if self.failed:
@@ -738,6 +764,7 @@ def run(ctx):
     ctx.require('binary_frames_spelling_text_packets', 10)
     ctx.require('lone_surrogate_texts', 10)
     ctx.require('offender_text_relayed', 10)
+    ctx.require('unsolicited_ack_frames', 20)
     # the offender's well-formed churn handled by one thread while another
     # thread serves a bystander (controlled scheduler, statement level)
     from checks import c12_sched
